@@ -46,6 +46,12 @@ func c11Universe(seed int64, size int) []any {
 		O{}, O{"a": nil}, O{"a": 0}, O{"a": 1}, O{"a": 1.0}, O{"a": 2}, O{"b": 0}, O{"a": 1, "b": 2}, O{"a": 1, "b": 3}, O{"a": 2, "b": 0}, O{"a": 0, "c": 0}, O{"b": 1, "c": 0}, O{"": 1}, O{"A": 1}, O{"é": 1}, O{"￿": 1}, O{"\U00010000": 1},
 		O{"a": O{}}, O{"a": A{}}, O{"a": O{"b": 1}}, O{"a": O{"b": 2}}, O{"a": A{1}}, O{"a": "x"}, O{"a": 1, "b": 2, "c": 3}, O{"a": nil, "b": nil}, O{"aa": 0}, O{"a": 0, "aa": 0},
 	}
+	// integers at the edge of the machine word in the representation they do not need, null-valued members under
+	// different keys, and slices that share one backing array (same first element, different lengths / offsets)
+	shared := A{1, 2, 3, A{1, 2}}
+	u = append(u, big.NewInt(math.MinInt64), big.NewInt(math.MaxInt64), big.NewInt(-1), big.NewInt(-(1 << 53)), json.Number("9223372036854775807"), json.Number("-9007199254740993"),
+		O{"b": nil}, O{"a": 1, "c": nil}, A{O{"a": nil}}, A{O{"b": nil}}, O{"a": O{"x": nil}}, O{"a": O{"y": nil}},
+		shared, shared[:2], shared[:1], shared[1:3], shared[:3], shared[3].(A)[:1], A{shared[:2], shared[:3]})
 	r := rand.New(rand.NewPCG(uint64(seed), 0xc11))
 	for len(u) < size {
 		v := gen.RandValue(r, 3)
@@ -74,7 +80,7 @@ var (
 
 func c11Init(c *run.Ctx) {
 	c11Once.Do(func() {
-		c11U = c11Universe(c.Seed, c.N(225, 440))
+		c11U = c11Universe(c.Seed, c.N(245, 460))
 		n := len(c11U)
 		c11M = make([][]int8, n)
 		for i := range c11M {
